@@ -47,8 +47,20 @@ _cer_var: ContextVar = ContextVar("verif_cer", default=None)
 _token_logic_holder = {"provider": None}
 
 
+_data_var: ContextVar = ContextVar("verif_data", default=None)
+_DEFAULT_DATA = EvaluatableData(body=None, edifact_format=FMT, edifact_format_version=FV)
+
+
 def _get_evaluatable_data():
-    return EvaluatableData(body=_cer_var.get(), edifact_format=FMT, edifact_format_version=FV)
+    """ONE EvaluatableData object per set_cer call (and one for 'no data'): users hand the same object to every evaluation of a message, so behaviour that
+    depends on the identity of the data object must show here"""
+    d = _data_var.get()
+    body = _cer_var.get()
+    if d is not None and d.body is body:
+        return d
+    if body is None:
+        return _DEFAULT_DATA
+    return EvaluatableData(body=body, edifact_format=FMT, edifact_format_version=FV)
 
 
 class _SwitchableProvider(TokenLogicProvider):
@@ -129,6 +141,7 @@ def set_cer(cer, inplace=False):
         _cer_var.set(_shared_body)
     else:
         _cer_var.set(_schema.dump(cer))
+    _data_var.set(EvaluatableData(body=_cer_var.get(), edifact_format=FMT, edifact_format_version=FV))
 
 
 def set_cer_values(rc=None, fc=None, hints=None, packages=None, inplace=False, hardcoded=False):
